@@ -38,7 +38,7 @@ def main():
             results[pid] = dict(exit=rc, violation_lines=viol[:3], first_replay=replay)
             print(f"[{name}] ./check {pid} quick -> exit {rc}; {viol[:1]}", flush=True)
     finally:
-        sh("git -C /repo checkout -- .")
+        sh("git -C /repo checkout -- . && git -C /repo clean -fdq src")
     dst = os.path.join(ROOT, "seeded", "harmless-" + name)
     os.makedirs(dst, exist_ok=True)
     shutil.copy(patch, os.path.join(dst, "patch.diff"))
